@@ -202,9 +202,30 @@ func providerName(t *rapid.T, label string) string {
 func TestC14Codec(t *testing.T) {
 	s := st("C14")
 	rapid.Check(t, func(rt *rapid.T) {
-		uidGen := rapid.OneOf(rapid.String(), rapid.StringMatching(`[;a-z2]{0,8}`), rapid.SampledFrom([]string{"", ";", ";;", "oauth2", ";;x", "x;;", "a;;b;;c"}))
+		uidGen := rapid.OneOf(rapid.String(), rapid.StringMatching(`[;a-z2]{0,8}`), rapid.StringMatching(`[;%3Bb\\Aa.]{0,8}`), rapid.SampledFrom([]string{"", ";", ";;", "oauth2", ";;x", "x;;", "a;;b;;c", "4;2", "4%3B2", "%3B", "%"}))
 		p1, p2 := providerName(rt, "p1"), providerName(rt, "p2")
 		u1, u2 := uidGen.Draw(rt, "u1"), uidGen.Draw(rt, "u2")
+		if rapid.IntRange(0, 9).Draw(rt, "related") < 4 {
+			// a second uid that differs from the first only by a spelling an escaping scheme might fold
+			switch rapid.IntRange(0, 7).Draw(rt, "fold") {
+			case 0:
+				u2 = strings.ReplaceAll(u1, ";", "%3B")
+			case 1:
+				u2 = strings.ReplaceAll(u1, ";", "%3b")
+			case 2:
+				u2 = strings.ReplaceAll(u1, ";", "\\;")
+			case 3:
+				u2 = strings.ReplaceAll(u1, ";;", ";")
+			case 4:
+				u2 = strings.ToLower(u1)
+			case 5:
+				u2 = strings.ToUpper(u1)
+			case 6:
+				u2 = url.QueryEscape(u1)
+			case 7:
+				u2 = u1 + " "
+			}
+		}
 		if rapid.Bool().Draw(rt, "sameprov") {
 			p2 = p1
 		}
